@@ -1,5 +1,5 @@
 \* exhaustive check of the closed model, larger scope (history hidden by VIEW)
-CONSTANTS Claims = {"c1"}  AtomIds = {1, 3, 6, 9, 10, 12}  Types = {"small", "large"}  Zones = {"zone-a", "zone-b"}  CTs = {"spot", "on-demand"}
+CONSTANTS Claims = {"c1"}  AtomIds = {1, 3, 6, 9, 10, 12, 17, 19}  Types = {"small", "large"}  Zones = {"zone-a", "zone-b"}  CTs = {"spot", "on-demand"}
           MaxLen = 40  MaxEdits = 3  MaxAtoms = 1  Wk = "none"
 SPECIFICATION Spec
 VIEW view
